@@ -7,7 +7,8 @@ From V Require Import Base.U64 Base.Outcome Forkchoice.ProtoArray Forkchoice.Vot
 Import ListNotations.
 Local Open Scope N_scope.
 
-Definition step := (op * gores rv * list (ref * bool) * N)%type.
+(* operation, what Go returned, the sink calls during it, checksum of Go's state after it, checksum of Go's node weights after it *)
+Definition step := (op * gores rv * list (ref * bool) * N * N)%type.
 Inductive fcase := mkCase (i : init_args) (init_go : gores rv) (steps : list step).
 
 (* ---------- the state checksum (same fold as harness/fc/fc.go: checksum) ---------- *)
@@ -56,7 +57,7 @@ Definition log_eqb (a b : list (ref * bool)) : bool :=
 Fixpoint impl_steps (fx : fixes) (k : N) (w : wrapper) (steps : list step) : N :=
   match steps with
   | [] => 0
-  | (o, go, log, chk) :: rest =>
+  | (o, go, log, chk, _) :: rest =>
       let '(w', r) := impl_step fx o w in
       let lg := match o with OUpdate _ _ _ _ _ => w_log w' | _ => [] end in
       if negb (agree rv_eqb r go && log_eqb lg log) then k else
@@ -77,6 +78,12 @@ Definition impl_first_bad (fx : fixes) (c : fcase) : N :=
 Definition impl_ok (c : fcase) : bool := impl_first_bad fixed c =? 0.
 
 (* ---------- Spec verdicts ---------- *)
+(* order-independent checksum of (node, weight) over the Spec's tree; the harness computes the same over Go's node table *)
+Definition spec_wchk (s : sstate) : int :=
+  let chains := s_chains s in
+  fold_left (fun acc n => (acc + hadd (hN (hN 11%uint63 (fst (s_ref n))) (snd (s_ref n))) (Uint63.of_Z (weight_of chains (s_ref n))))%uint63)
+            (ss_tree s) 0%uint63.
+
 (* which property a call's result is counted under *)
 Definition is_query (o : op) : bool :=
   match o with
@@ -114,12 +121,17 @@ Fixpoint spec_steps (sel : op -> bool -> bool) (sink_nil : bool) (k : N) (s : ss
          (steps : list step) : N * bool :=
   match steps with
   | [] => (0, late)
-  | (o, go, log, _) :: rest =>
+  | (o, go, log, _, wchk) :: rest =>
       let '(ind, b') := op_in_domain s b o in
       if negb ind || ss_partial s then (0, late) else
       let late' := late || late_fork_at s o in
       let '(s', e, logok) := spec_step sink_nil o log s in
-      let good := meets e go && logok in
+      (* weights_inv, observed: after a head computation or an update every node weighs what the Spec says *)
+      let wok := match o, go with
+                 | (OHead | OFindHead _ _ | OUpdate _ _ _ _ _), (GoOk _ | GoErr) =>
+                     ss_partial s' || Uint63.eqb (spec_wchk s') (u wchk)
+                 | _, _ => true end in
+      let good := meets e go && logok && wok in
       if sel o moved && negb good then (k, late') else
       match go with
       | GoOk _ | GoErr =>
@@ -173,7 +185,7 @@ Definition impl_ok_pinned (c : fcase) : bool := impl_first_bad pinned c =? 0.
 Fixpoint model_at_steps (fx : fixes) (k : nat) (w : wrapper) (steps : list step) : option (outcome rv * list (ref * bool) * wrapper) :=
   match steps with
   | [] => None
-  | (o, _, _, _) :: rest =>
+  | (o, _, _, _, _) :: rest =>
       let '(w', r) := impl_step fx o w in
       match k with
       | O => Some (r, w_log w', w')
@@ -189,7 +201,7 @@ Definition model_at (fx : fixes) (c : fcase) (k : nat) :=
 Fixpoint spec_at_steps (sink_nil : bool) (k : nat) (s : sstate) (steps : list step) : option (expect * bool * sstate) :=
   match steps with
   | [] => None
-  | (o, _, log, _) :: rest =>
+  | (o, _, log, _, _) :: rest =>
       let '(s', e, logok) := spec_step sink_nil o log s in
       match k with
       | O => Some (e, logok, s')
